@@ -14,6 +14,7 @@ CONSTANTS
   DevLimiter = @@DEVLIM@@
   DevNilFwd = TRUE
   DevStaleSrc = TRUE
+  DevSleepLimiter = FALSE
   Gen = TRUE
   Emit = TRUE
 INIT Init
